@@ -74,6 +74,11 @@ func (sd *streamSide) start(c *harness.Ctx, conn net.Conn, prop string) {
 			buf := make([]byte, w.Size)
 			patFill(sd.dirOut, off, buf)
 			n, err := conn.Write(buf)
+			// io.Writer: "Write must not retain p" - the application is free to
+			// reuse its buffer as soon as Write has returned (io.Copy does)
+			for i := range buf {
+				buf[i] = 0xEE
+			}
 			if *sd.ending {
 				return
 			}
